@@ -54,6 +54,15 @@ def gen_specs(ck, n):
         ['list', [['sub', 'Counter', ['dict', [[['leaf', "'a'"], ['leaf', '1']]]]], ['sub', 'Point', ['tuple', [['leaf', '1'], ['leaf', '2']]]],
                   ['sub', 'MySet', ['set', [['leaf', '2'], ['leaf', '1']]]], ['sub', 'MyStr', ['leaf', "'ab'"]]]],
         ['dict', [[['leaf', "'m'"], ['sub', 'masked1', ['array', 'int32', [2, 2], [1, 2, 3, 4]]]], [['leaf', "'r'"], ['sub', 'recarray', ['array', 'float64', [3], [1, 2, 3]]]]]],
+        # elements that are only partially ordered (frozensets: <= is inclusion), lambdas whose constants are containers
+        ['set', [['frozenset', [['leaf', "'a'"]]], ['frozenset', [['leaf', "'b'"]]], ['frozenset', [['leaf', "'c'"]]], ['frozenset', [['leaf', "'a'"], ['leaf', "'b'"]]]]],
+        ['task', 'f', [['frozenset', [['frozenset', [['leaf', "'u'"]]], ['frozenset', [['leaf', "'v'"]]], ['frozenset', [['leaf', "'w'"]]]]]], []],
+        ['lambda', ['task', 'g', [], []], 'lin'],
+        ['task', 'f', [['lambda', ['task', 'g', [], []], 'ltup']], []],
+        # known finding D24, one value per sub-case: set subclass of strings (hash seed), ndarray subclass (layout), Counter (insertion order)
+        ['sub', 'MySet', ['set', [['leaf', "'p'"], ['leaf', "'q'"], ['leaf', "'r'"]]]],
+        ['task', 'f', [['sub', 'recarray', ['array', 'float64', [2, 3], [1, 2, 3, 4, 5, 6]]]], []],
+        ['task', 'f', [], [['a', ['sub', 'Counter', ['dict', [[['leaf', "'a'"], ['leaf', '1']], [['leaf', "'b'"], ['leaf', '2']], [['leaf', "'c'"], ['leaf', '3']]]]]]]],
         # ==-equal scalars of different types as dict keys / set elements of consecutive values
         ['task', 'f', [['dict', [[['leaf', '1'], ['leaf', '10']], [['leaf', '2'], ['leaf', '20']]]]], []],
         ['task', 'g', [['dict', [[['leaf', '1.0'], ['leaf', '10']], [['leaf', '2.0'], ['leaf', '20']], [['leaf', '2.5'], ['leaf', '5']]]]], []],
@@ -68,13 +77,16 @@ def gen_specs(ck, n):
 def run(ck):
     ck.prove()
     ck.assumptions = ['SHA-1/pickle are outside the model (digests symbolic); pickle.dumps of atomic values is deterministic across processes '
-                      '(checked by the cross-process digest comparison)']
+                      '(checked by the cross-process digest comparison)',
+                      'known finding D24 (instances of proper subclasses of set/frozenset/dict/ndarray are pickled whole) is tolerated ONLY when '
+                      'the disagreeing realisations are equal as values and their recorded chunk trees differ in nothing but the pickle chunks of such leaves']
     n = ck.n(400, 6000)
     seeds = [1, 2, 3] if ck.tier == 'quick' else [1, 2, 3, 4, 5, 6]
     specs = gen_specs(ck, n)
     results = hashgen.run_workers(specs, seeds, 'c07')
     cases, meta = [], []
     nerr = 0
+    differing = []
     for i, spec in enumerate(specs):
         recs = [r[i] for r in results]
         errs = [r.get('error') for r in recs if r.get('error')]
@@ -91,12 +103,11 @@ def run(ck):
         digs = set(r['digest'] for r in recs)
         h1 = set(r['hash_one'] for r in recs) | set(r['hash_one_recorded'] for r in recs)
         if len(digs) != 1 or len(h1) != 1:
-            ck.violation({'kind': 'impl-violation', 'what': 'identifier differs between processes / hash seeds / realisations of the same value',
-                          'spec': spec, 'seeds': seeds, 'digests': [r['digest'] for r in recs],
-                          'hash_one': [r['hash_one'] for r in recs], 'hash_one_second_realisation': [r['hash_one_recorded'] for r in recs]})
+            differing.append(i)
         for s, r in zip(seeds, recs):
             cases.append(r['case'])
             meta.append({'spec': spec, 'seed': s})
+    report_differing(ck, specs, results, seeds, differing)
     order_dependence(ck, specs, results, seeds)
     ck.sample({'spec': specs[len(specs) // 2], 'seeds': seeds})
     ck.sample({'coq_case': cases[0]})
@@ -108,6 +119,75 @@ def run(ck):
     for i in (fails or []):
         ck.violation({'kind': 'correspondence', 'what': 'sha1 chunk sequence of the real code differs from the model stream',
                       'spec': meta[i]['spec'], 'seed': meta[i]['seed'], 'coq_case': cases[i][:3000]})
+
+
+def tree_diff(a, b):
+    """compare two chunk trees (hashworker.chunk_tree).  Returns None if they differ in shape or in a chunk that is not, on both
+    sides, the pickle of a proper-subclass leaf; otherwise the number of positions (all of them such pickles) where they differ."""
+    if len(a) != len(b):
+        return None
+    n = 0
+    for x, y in zip(a, b):
+        if x[0] != y[0]:
+            return None
+        if x[0] == 'B':
+            if x[1] != y[1]:
+                if not (x[2] and y[2]):
+                    return None
+                n += 1
+        else:
+            k = tree_diff(x[1], y[1])
+            if k is None:
+                return None
+            n += k
+    return n
+
+
+def subclass_leaf_kinds(spec, out=None):
+    """which proper subclasses of set / frozenset / dict / ndarray a spec mentions"""
+    out = set() if out is None else out
+    if isinstance(spec, list):
+        if len(spec) == 3 and spec[0] == 'sub' and isinstance(spec[1], str):
+            base = {'dict': 'mapping', 'set': 'set', 'frozenset': 'set', 'array': 'ndarray'}.get(hashgen.sub_base(spec[1]))
+            if base:
+                out.add(base)
+        for x in spec:
+            subclass_leaf_kinds(x, out)
+    return out
+
+
+def report_differing(ck, specs, results, seeds, differing):
+    """specs whose identifier differs between processes / realisations.  Known finding D24 (class subclass_pickled_whole) iff, on
+    re-tracing exactly those realisations: the observed identifiers are reproduced, all realisations are equal as values, and their
+    chunk trees differ only in chunks that are - in every realisation - the pickle of a leaf that is an instance of a proper subclass
+    of set / frozenset / dict / ndarray.  Anything else is a violation."""
+    if not differing:
+        return
+    traces = hashgen.run_workers([[i, specs[i]] for i in differing], seeds, 'c07trace', mode='trace')
+    for k, i in enumerate(differing):
+        spec = specs[i]
+        recs = [r[i] for r in results]
+        obj = {'kind': 'impl-violation', 'what': 'identifier differs between processes / hash seeds / realisations of the same value',
+               'spec': spec, 'seeds': seeds, 'digests': [r['digest'] for r in recs],
+               'hash_one': [r['hash_one'] for r in recs], 'hash_one_second_realisation': [r['hash_one_recorded'] for r in recs]}
+        trs = [t[k] for t in traces]
+        ok = all(not t.get('error') and len(t['traces']) == 2 for t in trs)
+        if ok:
+            # the traces are the realisations that disagreed
+            ok = all(t['traces'][0]['digest'] == r['digest'] and t['traces'][0]['hash_one'] == r['hash_one'] and
+                     t['traces'][1]['hash_one'] == r['hash_one_recorded'] for t, r in zip(trs, recs))
+        if ok:
+            flat = [x for t in trs for x in t['traces']]
+            ref = flat[0]
+            same_value = all(x['vkey'] == ref['vkey'] for x in flat)
+            diffs = [tree_diff(ref['tree'], x['tree']) for x in flat]
+            if same_value and all(d is not None for d in diffs) and any(diffs) and subclass_leaf_kinds(spec):
+                obj['class'] = 'subclass_pickled_whole'
+                obj['what'] = 'identifier of a value holding an instance of a subclass of set/frozenset/dict/ndarray (pickled whole) differs between realisations'
+                obj['differing_chunks_all_subclass_pickles'] = max(d for d in diffs)
+                for kind in sorted(subclass_leaf_kinds(spec)):
+                    ck.count('known_subclass_pickled_whole:' + kind)
+        ck.violation(obj)
 
 
 def order_dependence(ck, specs, results, seeds):
